@@ -140,3 +140,94 @@ Check rvole_hyps_satisfiable :
   forall xi w (beta : nat -> bool) (v0 v1 : mat),
     ot_correlated xi w beta v0 v1 (fun j k => if beta j then v1 j k else v0 j k).
 Print Assumptions rvole_hyps_satisfiable.
+
+(** The REAL seed pipeline (the synthetic generator replaced by the code's own path): honest Endemic base OT (C05), the Endemic SENDER's keys through build_pprf -> SenderOTSeed (used by RVOLEReceiver::new), the Endemic RECEIVER's bits/keys through eval_pprf on the honest message -> ReceiverOTSeed with random_choices[j] = y_star as u8 (used by RVOLESender::process), then the OT-extension RVOLE. Every group with the group laws, every oracle, three independent session ids, ALL tapes (tt: the zeroed PPRFOutput buffer; beta/tape: [u8;64]/[u8;16]): every stage returns Val and c + d = a*b with b the value returned by new. *)
+From SL Require Import Model.Pprf Proofs.Pprf Proofs.PprfMain Proofs.EndemicZq Proofs.RvoleFullPipeline.
+Theorem rvole_real_pipeline_correct :
+  forall G (O : group_ops G) (H : transcript_oracle) (q : Z),
+  group_laws q O -> enc33_roundtrip G O -> 0 < q <= 2 ^ 256 ->
+  forall sid_ot sid_pprf sid bits tas ros tbs tt beta tape (a : list Z) (eta_tape : list (list N)),
+  tt_zero tt -> rowP ssLB beta -> rowP ssSB tape ->
+  let rn := eot_receiver_new G O H sid_ot bits tas ros in
+  let sp := eot_sender_process G O H sid_ot (snd rn) tbs in
+  exists skeys rkeys r m c d,
+    snd sp = Val skeys /\
+    eot_receiver_process G O H (fst rn) (fst sp) = Val (bits, rkeys) /\
+    eval_pprf H sid_pprf bits rkeys (honest_msgs H sid_pprf skeys tt) = Val r /\
+    let ss := pprf_sender_seed (build_pprf H sid_pprf skeys tt) in
+    let rs := pprf_receiver_seed r in
+    let new := rvole_recv_new H q sid ss round1_default beta tape in
+    let st := fst (fst new) in let b := snd (fst new) in let r1 := snd new in
+    rvole_send_process H q sid rs a r1 eta_tape = Val (m, c) /\
+    rvole_recv_process H q st m = Val d /\
+    b = rvole_b H q rv_xi sid (rv_bit beta) /\
+    forall i, (i < rv_lb)%nat -> (nth i c 0 + nth i d 0) mod q = (nth i a 0 * b) mod q.
+Proof. exact rvole_real_pipeline_correct_lem. Qed.
+Check rvole_real_pipeline_correct :
+  forall G (O : group_ops G) (H : transcript_oracle) (q : Z),
+  group_laws q O -> enc33_roundtrip G O -> 0 < q <= 2 ^ 256 ->
+  forall sid_ot sid_pprf sid bits tas ros tbs tt beta tape (a : list Z) (eta_tape : list (list N)),
+  tt_zero tt -> rowP ssLB beta -> rowP ssSB tape ->
+  let rn := eot_receiver_new G O H sid_ot bits tas ros in
+  let sp := eot_sender_process G O H sid_ot (snd rn) tbs in
+  exists skeys rkeys r m c d,
+    snd sp = Val skeys /\
+    eot_receiver_process G O H (fst rn) (fst sp) = Val (bits, rkeys) /\
+    eval_pprf H sid_pprf bits rkeys (honest_msgs H sid_pprf skeys tt) = Val r /\
+    let ss := pprf_sender_seed (build_pprf H sid_pprf skeys tt) in
+    let rs := pprf_receiver_seed r in
+    let new := rvole_recv_new H q sid ss round1_default beta tape in
+    let st := fst (fst new) in let b := snd (fst new) in let r1 := snd new in
+    rvole_send_process H q sid rs a r1 eta_tape = Val (m, c) /\
+    rvole_recv_process H q st m = Val d /\
+    b = rvole_b H q rv_xi sid (rv_bit beta) /\
+    forall i, (i < rv_lb)%nat -> (nth i c 0 + nth i d 0) mod q = (nth i a 0 * b) mod q.
+Print Assumptions rvole_real_pipeline_correct.
+
+(** The seed bridge on its own: the (SenderOTSeed, ReceiverOTSeed) records filled by an accepted honest build_pprf / eval_pprf run on consistent base OTs satisfy seeds_ok of the SoftSpoken development (C03), i.e. the premise of rvole_pipeline_correct. *)
+Theorem rvole_real_seeds_ok : forall H sid sk cb rk tt r,
+  ot_consistent sk cb rk -> tt_zero tt ->
+  eval_pprf H sid cb rk (honest_msgs H sid sk tt) = Val r ->
+  SoftSpokenC03.seeds_ok (pprf_sender_seed (build_pprf H sid sk tt)) (pprf_receiver_seed r).
+Proof. exact pprf_gives_ss_seeds_ok. Qed.
+Check rvole_real_seeds_ok : forall H sid sk cb rk tt r,
+  ot_consistent sk cb rk -> tt_zero tt ->
+  eval_pprf H sid cb rk (honest_msgs H sid sk tt) = Val r ->
+  SoftSpokenC03.seeds_ok (pprf_sender_seed (build_pprf H sid sk tt)) (pprf_receiver_seed r).
+Print Assumptions rvole_real_seeds_ok.
+
+(** Non-vacuity of the real pipeline: Z_11 (Lib/ZqGroup.v, 33-byte encoding) satisfies the group premises, 11 is an allowed modulus, zero buffers satisfy the tape premises; with them the whole pipeline runs to c + d = a*b for the constant oracle, every session id, scalar tape and input. *)
+Example rvole_real_pipeline_satisfiable :
+  group_laws 11 (zq33_group 11 eot_lt_1_11) /\ enc33_roundtrip (zq 11) (zq33_group 11 eot_lt_1_11) /\
+  0 < 11 <= 2 ^ 256 /\ tt_zero [] /\ rowP ssLB (zbytes ssLB) /\ rowP ssSB (zbytes ssSB) /\
+  forall sid_ot sid_pprf sid bits tas ros tbs (a : list Z) (eta_tape : list (list N)),
+  let G := zq 11 in let O := zq33_group 11 eot_lt_1_11 in let H := eot_zero_oracle in
+  let rn := eot_receiver_new G O H sid_ot bits tas ros in
+  let sp := eot_sender_process G O H sid_ot (snd rn) tbs in
+  exists skeys rkeys r m c d,
+    snd sp = Val skeys /\
+    eot_receiver_process G O H (fst rn) (fst sp) = Val (bits, rkeys) /\
+    eval_pprf H sid_pprf bits rkeys (honest_msgs H sid_pprf skeys []) = Val r /\
+    let new := rvole_recv_new H 11 sid (pprf_sender_seed (build_pprf H sid_pprf skeys [])) round1_default
+                              (zbytes ssLB) (zbytes ssSB) in
+    rvole_send_process H 11 sid (pprf_receiver_seed r) a (snd new) eta_tape = Val (m, c) /\
+    rvole_recv_process H 11 (fst (fst new)) m = Val d /\
+    forall i, (i < rv_lb)%nat -> (nth i c 0 + nth i d 0) mod 11 = (nth i a 0 * snd (fst new)) mod 11.
+Proof. exact rvole_real_pipeline_nonvacuous. Qed.
+Check rvole_real_pipeline_satisfiable :
+  group_laws 11 (zq33_group 11 eot_lt_1_11) /\ enc33_roundtrip (zq 11) (zq33_group 11 eot_lt_1_11) /\
+  0 < 11 <= 2 ^ 256 /\ tt_zero [] /\ rowP ssLB (zbytes ssLB) /\ rowP ssSB (zbytes ssSB) /\
+  forall sid_ot sid_pprf sid bits tas ros tbs (a : list Z) (eta_tape : list (list N)),
+  let G := zq 11 in let O := zq33_group 11 eot_lt_1_11 in let H := eot_zero_oracle in
+  let rn := eot_receiver_new G O H sid_ot bits tas ros in
+  let sp := eot_sender_process G O H sid_ot (snd rn) tbs in
+  exists skeys rkeys r m c d,
+    snd sp = Val skeys /\
+    eot_receiver_process G O H (fst rn) (fst sp) = Val (bits, rkeys) /\
+    eval_pprf H sid_pprf bits rkeys (honest_msgs H sid_pprf skeys []) = Val r /\
+    let new := rvole_recv_new H 11 sid (pprf_sender_seed (build_pprf H sid_pprf skeys [])) round1_default
+                              (zbytes ssLB) (zbytes ssSB) in
+    rvole_send_process H 11 sid (pprf_receiver_seed r) a (snd new) eta_tape = Val (m, c) /\
+    rvole_recv_process H 11 (fst (fst new)) m = Val d /\
+    forall i, (i < rv_lb)%nat -> (nth i c 0 + nth i d 0) mod 11 = (nth i a 0 * snd (fst new)) mod 11.
+Print Assumptions rvole_real_pipeline_satisfiable.
